@@ -114,6 +114,8 @@ def reparse_key(kv):
         return "match:reparse:empty-class"
     if re.search(r"r\([^,()]*,c93\)", ast):
         return "match:reparse:bracket-range-end"
+    if re.search(r"r\(p0[hv],|r\([^,()]*,p0[hv]\)", ast):
+        return "match:reparse:range-to-class"
     if re.search(r"q\(n:48\.\d|q\(nm:48\.\d|q\(nm:[^:;]*:48\.\d", ast):
         return "match:reparse:repeat-leading-zero"
     if re.search(r"q\([^;]*;[01];Q\(", ast):
@@ -152,6 +154,9 @@ X_KEYS = {
     "bracket": "extended:comment-contains-bracket", "quantifier": "extended:comment-contains-quantifier",
     "hashq": "extended:hash-quantified", "lonehash": "extended:lone-hash", "nlq": "extended:quantified-newline-after-comment",
     "wsq": "extended:quantified-whitespace", "backslash": "extended:comment-contains-backslash", "other": "extended:other",
+    # inline flag groups: `#` / whitespace standing where the text has switched x OFF (after `(?-x)`, inside `(?-x:..)`,
+    # before `(?x)`) must be literal characters
+    "hashoff": "extended:literal-hash-where-x-is-off", "wsoff": "extended:literal-whitespace-where-x-is-off",
 }
 
 
@@ -209,7 +214,8 @@ def check_case(t, cid, inp, obs, exp, broke):
     itext = o.get("text")
     xref = o.get("xref", "-")
 
-    # ---- direct oracle for extended mode (global x only): strip_x first, then transpile without x
+    # ---- direct oracle for extended mode (global x and / or inline (?x) (?-x) (?x:..) (?-x:..) groups): the source is
+    # stripped where ITS OWN flag groups say x is on (harness xStrip, source level), then transpiled without the global x
     if xref != "-":
         if itext == "ERR":
             t.bump(t.text_dist, "x-oracle:impl-rejects" + ("" if xref == "ERR" else "-but-stripped-source-is-valid"))
@@ -223,6 +229,10 @@ def check_case(t, cid, inp, obs, exp, broke):
         else:
             cause = o.get("xcause", "other")
             key = X_KEYS.get(cause[6:] if cause.startswith("multi-") else cause, "extended:other")
+            if cause == "other" and reparse_key(kv) == "match:reparse:bracket-range-end":
+                # `[k-]..]`: the Elk parser reads `-]` as a range end and goes on to the NEXT `]`; the oracle's scanner
+                # (like Go) ends the class at the first `]`, so they strip different stretches of text
+                key = "match:reparse:bracket-range-end"
             if cause == "wsq" and reparse_key(kv) == "match:reparse:repeat-leading-zero":
                 # `x{00} +` -> `x{00}+`: Go accepts the stacked quantifier only because it reads `{00}` as literal text
                 key = "match:reparse:repeat-leading-zero"
@@ -230,7 +240,8 @@ def check_case(t, cid, inp, obs, exp, broke):
             t.text_mism += 1
             t.fail(size, key, "%s: Transpile gives %s but removing comments/whitespace first gives %s (cause: %s)" % (label, show(itext), show(xref), cause),
                    "c21.text", base, "text=" + show(itext), None,
-                   "direct oracle: Transpile(src, f) must equal Transpile(strip_x(src), f - x); got %s vs %s" % (show(itext), show(xref)))
+                   "direct oracle: Transpile(src, f) must equal Transpile(xstrip(src, x in f), f - x) where xstrip removes comments and whitespace "
+                   "exactly where the literal's x flag / the (?x) (?-x) groups of the text switch extended mode on; got %s vs %s" % (show(itext), show(xref)))
 
     if ast == "ERR":
         t.bump(t.text_dist, "parse-error")
@@ -263,6 +274,10 @@ def check_case(t, cid, inp, obs, exp, broke):
             keys = ["text:empty-split-class"]
         elif m1 is not None and i1 is not None and m1 == i1:
             keys = ["text:global-flags-dropped", "text:empty-split-class"]
+        elif o.get("xcause") in ("hashoff", "wsoff"):
+            # the direct oracle has named the class (a `#` / whitespace where the text switched x off): one canonical key
+            # for both oracles instead of one per feature combination
+            keys = [X_KEYS[o.get("xcause")]]
         else:
             keys = ["text:" + feature_tags(kv)]
         for key in keys:
